@@ -24,6 +24,40 @@ TRN = "SOLUTION 0\n Na 1\n Cl 1\nSOLUTION 1-6\n K 1\n N(5) 1\nSELECTED_OUTPUT 1\
 TRN_MD = TRN.replace(" -punch_cells 6", " -multi_d true 1e-9 0.3 0.05 1\n -punch_cells 6")
 
 
+INV2 = ("SOLUTION 1\n temp 25\n pH 7\n Na 1\n Cl 1\nSOLUTION 2\n temp 25\n pH 7\n Na 3.2\n Cl 3.2\n Ca 0.4\n S(6) 0.4\nSELECTED_OUTPUT 1\n -reset false\n -high_precision true\n -inverse_modeling true\n"
+        "INVERSE_MODELING 1\n -solutions 1 2\n -uncertainty 0.03\n -phases\n  Halite\n  Gypsum\n  Anhydrite\n -range\n -mineral_water true\nEND\n")
+PITZ = "SOLUTION 1\n temp 30\n pH 7\n Na 2000\n Cl 2000\n Mg 100\n S(6) 100\nSELECTED_OUTPUT 1\n -high_precision true\n -totals Na Mg\n -activities Na+ H2O\n -saturation_indices Halite Gypsum\nEQUILIBRIUM_PHASES 1\n Halite 0 0\nEND\n"
+ISO_DBS = ["phreeqc.dat", "llnl.dat", "wateq4f.dat", "pitzer.dat", "sit.dat", "minteq.v4.dat", "Amm.dat"]
+
+
+def iso_workloads():
+    """(database, input) pairs for the sequential-isolation check: the same kinds of calculation under databases that differ in
+    formula weights, activity models and master species"""
+    out = []
+    for db in ISO_DBS:
+        out.append((db, INV2))
+        out.append((db, PITZ if db in ("pitzer.dat",) else SPEC))
+        out.append((db, KIN))
+    return out
+
+
+def run_iso(exe, pairs, timeout=300):
+    with vlib.scratch("c06iso") as d:
+        args = []
+        for k, (db, t) in enumerate(pairs):
+            p = os.path.join(d, "i%d.pqi" % k)
+            open(p, "w").write(t)
+            args += [os.path.join(vlib.DB, db), p]
+        rc, out, err = vlib.sh([exe] + args, cwd=d, timeout=timeout)
+    for ln in out.split("\n"):
+        if ln.startswith("{"):
+            try:
+                return json.loads(ln)["last"]
+            except Exception:
+                pass
+    return None
+
+
 def inverse_text():
     t = open(os.path.join(vlib.REPO, "phreeqc3-examples", "ex16")).read()
     return t.replace("INVERSE_MODELING 1", "SELECTED_OUTPUT 1\n -reset false\n -inverse_modeling true\nINVERSE_MODELING 1", 1)
@@ -93,6 +127,35 @@ def run(ctx):
                           {"kind": "schedule", "threads": nt, "reps": reps, "observed": m, "input_text": base[m["workload"]] if isinstance(m, dict) and "workload" in m else None})
     if any(h != hashes[0] for h in hashes):
         ctx.violation("det:process", "results differ between repeated fresh processes (reference hashes %s)" % hashes, {"kind": "input", "observed": hashes})
+    # ---- sequential isolation across instances with DIFFERENT databases: what instance B computes may not depend on what another
+    #      instance A of the same process loaded / computed before (process-wide caches, function-local statics ...)
+    iexe = vlib.build_harness("isodrive", ["isodrive.cpp"], "O1")
+    wl = iso_workloads()
+    alone = {}
+    npairs = ctx.n(24, 200)
+    pairs = [(ctx.rng.choice(wl), ctx.rng.choice(wl)) for _ in range(npairs)]
+    # make sure every inverse-modelling workload meets a neighbour with a different database that did the same kind of work
+    pairs += [((da, INV2), (db, INV2)) for da in ("llnl.dat", "phreeqc.dat", "pitzer.dat") for db in ("phreeqc.dat", "llnl.dat", "sit.dat") if da != db]
+    import concurrent.futures as cf
+
+    def iso(pr):
+        a, b = pr
+        if b not in alone:
+            alone[b] = run_iso(iexe, [b])
+        return run_iso(iexe, [a, b]), alone[b]
+    with cf.ThreadPoolExecutor(max_workers=vlib.NCPU) as ex:
+        isores = list(ex.map(iso, pairs))
+    for (a, b), (both, ref) in zip(pairs, isores):
+        ctx.case("iso:" + vlib.key_of([a, b]), nontrivial=a[0] != b[0], sample={"first": a[0], "then": b[0]} if len(ctx.samples) < 3 else None)
+        if both is None or ref is None:
+            ctx.violation("iso:crash:" + vlib.key_of([a, b]), "the isolation driver died / timed out (first %s, then %s)" % (a[0], b[0]), {"kind": "history", "first": {"database": a[0], "input_text": a[1]}, "then": {"database": b[0], "input_text": b[1]}})
+        elif both != ref:
+            k = 0
+            while k < min(len(both), len(ref)) and both[k] == ref[k]:
+                k += 1
+            ctx.violation("iso:diff:" + vlib.key_of([a, b]), "an instance's results depend on what ANOTHER instance of the process did before: %s run after an instance with %s differs from the same run alone, at %r vs %r"
+                          % (b[0], a[0], both[max(0, k - 30):k + 50], ref[max(0, k - 30):k + 50]),
+                          {"kind": "history", "first": {"database": a[0], "input_text": a[1]}, "then": {"database": b[0], "input_text": b[1]}, "observed": both[max(0, k - 200):k + 200], "expected": ref[max(0, k - 200):k + 200]})
     # ---- ThreadSanitizer build
     texe = vlib.build_harness("mtdrive", ["mtdrive.cpp"], "tsan")
     env = {"TSAN_OPTIONS": "halt_on_error=0:report_signal_unsafe=0:history_size=4:exitcode=0"}
